@@ -83,7 +83,7 @@ Lemma rev64_halves x :
   Z.lor (Z.shiftl (rev 32 (x mod 2 ^ 32)) 32 mod 2 ^ 64) (rev 32 (Z.shiftr x 32 mod 2 ^ 32)) = rev 64 x.
 Proof.
   intros Hx. apply rev_unique; [lia| |].
-  - apply lor_range; [lia|apply mod_range; lia|]. pose proof (rev_range 32 (Z.shiftr x 32 mod 2 ^ 32)). lia.
+  - apply lor_range; [lia|apply mod_range; lia|]. pose proof (rev_range 32 (Z.shiftr x 32 mod 2 ^ 32) ltac:(lia)). lia.
   - enum_index 64%nat ltac:(bit_case).
 Qed.
 
@@ -97,9 +97,9 @@ Qed.
 
 (** ** Lookup table *)
 
-Lemma lookup_table_spec b : 0 <= b < 256 -> c_index lookup_u32_table b = Some (rev 8 b).
+Lemma lookup_table_spec b : 0 <= b < 2 ^ 8 -> c_index lookup_u32_table b = Some (rev 8 b).
 Proof.
-  intros Hb.
+  intros Hb. change (2 ^ 8) with (Z.of_nat 256) in Hb.
   assert (H : forallb (fun b => match c_index lookup_u32_table b with Some v => v =? rev 8 b | None => false end)
                       (zrange 256) = true) by (vm_compute; reflexivity).
   pose proof (forallb_zrange _ _ H b Hb) as E. cbv beta in E.
@@ -114,7 +114,7 @@ Lemma rev32_bytes x :
         (rev 8 (Z.land (Z.shiftr x 24) 255)) = rev 32 x.
 Proof.
   intros Hx. apply rev_unique; [lia| |].
-  - pose proof (rev_range 8 (Z.land (Z.shiftr x 24) 255)).
+  - pose proof (rev_range 8 (Z.land (Z.shiftr x 24) 255) ltac:(lia)).
     assert (2 ^ 8 < 2 ^ 32) by reflexivity.
     repeat apply lor_range; try (apply mod_range; lia); lia.
   - enum_index 32%nat ltac:(bit_case).
@@ -123,10 +123,10 @@ Qed.
 Lemma lookup_u32_is_rev x : 0 <= x < 2 ^ 32 -> lookup_u32 x = Some (rev 32 x).
 Proof.
   intros Hx. unfold lookup_u32. unfold c_and.
-  rewrite lookup_table_spec by (apply land_range; lia). monad_run.
-  rewrite lookup_table_spec by (apply land_range; [lia|apply shiftr_range; lia|lia]). monad_run.
-  rewrite lookup_table_spec by (apply land_range; [lia|apply shiftr_range; lia|lia]). monad_run.
-  rewrite lookup_table_spec by (apply land_range; [lia|apply shiftr_range; lia|lia]). monad_run.
+  rewrite lookup_table_spec by (apply (land_range _ 255 8); lia). monad_run.
+  rewrite lookup_table_spec by (apply (land_range _ 255 8); [lia|apply (shiftr_range _ _ 32); lia|lia]). monad_run.
+  rewrite lookup_table_spec by (apply (land_range _ 255 8); [lia|apply (shiftr_range _ _ 32); lia|lia]). monad_run.
+  rewrite lookup_table_spec by (apply (land_range _ 255 8); [lia|apply (shiftr_range _ _ 32); lia|lia]). monad_run.
   f_equal. apply rev32_bytes, Hx.
 Qed.
 
@@ -136,4 +136,105 @@ Proof.
   rewrite lookup_u32_is_rev by (apply mod_range; lia). monad_run.
   rewrite lookup_u32_is_rev by (apply mod_range; lia). monad_run.
   f_equal. apply rev64_halves, Hx.
+Qed.
+
+
+(** ** Mul/div forms: the per-byte functions are checked on all 256 bytes, then composed *)
+
+Lemma muldiv32_byte_spec b : 0 <= b < 2 ^ 8 -> muldiv32_byte b = Some (rev 8 b).
+Proof.
+  intros Hb. change (2 ^ 8) with (Z.of_nat 256) in Hb.
+  assert (H : forallb (fun b => match muldiv32_byte b with Some v => v =? rev 8 b | None => false end)
+                      (zrange 256) = true) by (vm_compute; reflexivity).
+  pose proof (forallb_zrange _ _ H b Hb) as E. cbv beta in E.
+  destruct (muldiv32_byte b); [|discriminate]. apply Z.eqb_eq in E. now subst.
+Qed.
+
+Lemma muldiv64_byte_spec b : 0 <= b < 2 ^ 8 -> muldiv64_byte b = Some (rev 8 b).
+Proof.
+  intros Hb. change (2 ^ 8) with (Z.of_nat 256) in Hb.
+  assert (H : forallb (fun b => match muldiv64_byte b with Some v => v =? rev 8 b | None => false end)
+                      (zrange 256) = true) by (vm_compute; reflexivity).
+  pose proof (forallb_zrange _ _ H b Hb) as E. cbv beta in E.
+  destruct (muldiv64_byte b); [|discriminate]. apply Z.eqb_eq in E. now subst.
+Qed.
+
+Lemma rev32_bytes_md x :
+  0 <= x < 2 ^ 32 ->
+  Z.lor (Z.lor (Z.lor (rev 8 (Z.shiftr x 24 mod 2 ^ 8))
+                      (Z.shiftl (rev 8 (Z.shiftr x 16 mod 2 ^ 8)) 8 mod 2 ^ 32))
+               (Z.shiftl (rev 8 (Z.shiftr x 8 mod 2 ^ 8)) 16 mod 2 ^ 32))
+        (Z.shiftl (rev 8 (x mod 2 ^ 8)) 24 mod 2 ^ 32) = rev 32 x.
+Proof.
+  intros Hx. apply rev_unique; [lia| |].
+  - pose proof (rev_range 8 (Z.shiftr x 24 mod 2 ^ 8) ltac:(lia)).
+    assert (2 ^ 8 < 2 ^ 32) by reflexivity.
+    repeat apply lor_range; try (apply mod_range; lia); lia.
+  - enum_index 32%nat ltac:(bit_case).
+Qed.
+
+Lemma rev64_bytes_md x :
+  0 <= x < 2 ^ 64 ->
+  Z.lor (Z.lor (Z.lor (Z.lor (Z.lor (Z.lor (Z.lor
+     (rev 8 (Z.shiftr x 56 mod 2 ^ 8))
+     (Z.shiftl (rev 8 (Z.shiftr x 48 mod 2 ^ 8)) 8 mod 2 ^ 64))
+     (Z.shiftl (rev 8 (Z.shiftr x 40 mod 2 ^ 8)) 16 mod 2 ^ 64))
+     (Z.shiftl (rev 8 (Z.shiftr x 32 mod 2 ^ 8)) 24 mod 2 ^ 64))
+     (Z.shiftl (rev 8 (Z.shiftr x 24 mod 2 ^ 8)) 32 mod 2 ^ 64))
+     (Z.shiftl (rev 8 (Z.shiftr x 16 mod 2 ^ 8)) 40 mod 2 ^ 64))
+     (Z.shiftl (rev 8 (Z.shiftr x 8 mod 2 ^ 8)) 48 mod 2 ^ 64))
+     (Z.shiftl (rev 8 (x mod 2 ^ 8)) 56 mod 2 ^ 64) = rev 64 x.
+Proof.
+  intros Hx. apply rev_unique; [lia| |].
+  - pose proof (rev_range 8 (Z.shiftr x 56 mod 2 ^ 8) ltac:(lia)).
+    assert (2 ^ 8 < 2 ^ 64) by reflexivity.
+    repeat apply lor_range; try (apply mod_range; lia); lia.
+  - enum_index 64%nat ltac:(bit_case).
+Qed.
+
+Ltac md_run spec :=
+  repeat first [ monad_step
+               | rewrite spec by (apply mod_range; lia) ].
+
+Lemma muldiv32_u32_is_rev x : 0 <= x < 2 ^ 32 -> muldiv32_u32 x = Some (rev 32 x).
+Proof.
+  intros Hx. unfold muldiv32_u32. rewrite !cast_u8. md_run muldiv32_byte_spec.
+  f_equal. apply rev32_bytes_md, Hx.
+Qed.
+
+Lemma muldiv64_u32_is_rev x : 0 <= x < 2 ^ 32 -> muldiv64_u32 x = Some (rev 32 x).
+Proof.
+  intros Hx. unfold muldiv64_u32. rewrite !cast_u8. md_run muldiv64_byte_spec.
+  f_equal. apply rev32_bytes_md, Hx.
+Qed.
+
+Lemma muldiv32_u64_is_rev x : 0 <= x < 2 ^ 64 -> muldiv32_u64 x = Some (rev 64 x).
+Proof.
+  intros Hx. unfold muldiv32_u64. rewrite !cast_u8. md_run muldiv32_byte_spec.
+  f_equal. apply rev64_bytes_md, Hx.
+Qed.
+
+Lemma muldiv64_u64_is_rev x : 0 <= x < 2 ^ 64 -> muldiv64_u64 x = Some (rev 64 x).
+Proof.
+  intros Hx. unfold muldiv64_u64. rewrite !cast_u8. md_run muldiv64_byte_spec.
+  f_equal. apply rev64_bytes_md, Hx.
+Qed.
+
+(** [muldiv::operator()] selects the 64-bit-architecture variant on this target. *)
+Lemma muldiv_u32_is_rev x : 0 <= x < 2 ^ 32 -> muldiv_u32 x = Some (rev 32 x).
+Proof. intros Hx. unfold muldiv_u32. rewrite muldiv64_u32_is_rev by exact Hx. reflexivity. Qed.
+
+Lemma muldiv_u64_is_rev x : 0 <= x < 2 ^ 64 -> muldiv_u64 x = Some (rev 64 x).
+Proof. intros Hx. unfold muldiv_u64. rewrite muldiv64_u64_is_rev by exact Hx. reflexivity. Qed.
+
+(** ** Involution *)
+
+Definition involutive_on (w : Z) (f : Z -> option Z) : Prop :=
+  forall x, 0 <= x < 2 ^ w -> exists y, f x = Some y /\ 0 <= y < 2 ^ w /\ f y = Some x.
+
+Lemma is_rev_involutive w f :
+  0 <= w -> (forall x, 0 <= x < 2 ^ w -> f x = Some (rev w x)) -> involutive_on w f.
+Proof.
+  intros Hw H x Hx. exists (rev w x). pose proof (rev_range w x Hw).
+  split; [auto|split; [assumption|]]. rewrite H by assumption. f_equal. apply rev_involutive; auto.
 Qed.
